@@ -255,7 +255,9 @@ func c12Run(c *core.Ctx, idx int, cs c12Case) {
 		cmdline := fmt.Sprintf("%s emit %d %d %d %d %s", self, cs.OutN, cs.ErrN, cs.Chunk, cs.FailFirst, counter)
 		st := dag.Step{Name: name, Dir: root, ExecutorConfig: dag.ExecutorConfig{Config: map[string]any{}}}
 		if cs.Script {
-			st.Command = "sh"
+			// as the loader builds `command: sh` + `script:` (CmdWithArgs is what resets the
+			// argument list before the script file name is appended, at every attempt)
+			st.Command, st.CmdWithArgs = "sh", "sh"
 			st.Script = "exec " + cmdline + "\n"
 		} else {
 			st.CmdWithArgs = cmdline
@@ -319,10 +321,12 @@ func c12Run(c *core.Ctx, idx int, cs c12Case) {
 			attempts, _ = strconv.Atoi(strings.TrimSpace(string(b)))
 		}
 		if attempts != st.RetryCount+1 {
-			// the last attempt did not run the emitter (on the pinned tree a retried
-			// script step runs `sh <removed first script> <new script>`, which fails
-			// before the emitter starts): what it printed is not known, nothing to compare
+			// an attempt did not run the emitter: the previous attempt's captured output (1 MiB)
+			// is an environment string above the kernel's per-string exec limit, so the next
+			// exec fails with E2BIG before the emitter starts (see Assumptions): what that
+			// attempt "printed" is not known, nothing to compare
 			c.Count("last_attempt_was_not_the_emitter", 1)
+			c.SetAdd("not_the_emitter_cases", fmt.Sprintf("%s attempts=%d retryCount=%d state=%s out=%d err=%d failFirst=%d limit=%d sib=%d error=%v", cs.key(), attempts, st.RetryCount, st.Status, cs.OutN, cs.ErrN, cs.FailFirst, cs.Limit, cs.Siblings, st.Error))
 			continue
 		}
 		wantOut, wantErr := emitPattern(0, attempts, cs.OutN), emitPattern(1, attempts, cs.ErrN)
